@@ -123,8 +123,8 @@ Qed.
 Lemma fields_ok_holds : forall e, quantified e -> fields_ok e = true.
 Proof.
   intros e Q. unfold fields_ok. apply forallb_forall. intros u Hu.
-  destruct (all_ufields_ok e u Q Hu) as [W _]. unfold ufield_wf in W. apply andb_true_iff in W.
-  destruct W as [_ W]. exact W.
+  destruct (all_ufields_ok e u Q Hu) as [W _]. destruct (ufield_wf_parts u W) as [_ [_ W3]].
+  unfold ufield_ok. now rewrite W3.
 Qed.
 
 (* what a schema of the block defines *)
@@ -168,11 +168,12 @@ Proof.
   - now apply names_enum_defined.
 Qed.
 
-Lemma ref_ok_resolves : forall e fl u, ref_ok e u = true ->
+Lemma ref_ok_resolves : forall e fl u, is_inline_kind u = false -> ref_ok e u = true ->
   resolves (defined (expand_with e fl)) (of_ufield u) = true.
 Proof.
-  intros e fl [n k r o] H. unfold ref_ok in H. cbn [uf_kind] in H. unfold resolves, of_ufield. cbn [uf_kind].
-  destruct k as [pt j|m|m|m|p f t|tn j|i|i]; cbn [f_type ref_resolves]; try reflexivity.
+  intros e fl [n k r o] Hi H. unfold ref_ok in H. cbn [uf_kind] in H. unfold resolves, field_resolves, of_ufield. cbn [uf_kind].
+  destruct k as [pt j|m|m|m|p f t|tn j|i|i|sfs|sfs|os]; try discriminate Hi;
+    cbn [f_type f_inline ref_resolves]; rewrite ?andb_true_r; try reflexivity.
   - apply resolves_local. now apply names_object_defined.
   - apply resolves_local. now apply names_oneof_defined.
   - apply resolves_local. now apply names_enum_defined.
@@ -183,7 +184,8 @@ Qed.
 Lemma closed_holds : forall e fl, quantified e -> closed (expand_with e fl) = true.
 Proof.
   intros e fl Q. apply expand_closed. unfold user_refs_ok. apply forallb_forall. intros u Hu.
-  destruct (all_ufields_ok e u Q Hu) as [_ R]. now apply ref_ok_resolves.
+  destruct (all_ufields_ok e u Q Hu) as [W R]. destruct (ufield_wf_parts u W) as [_ [Hi _]].
+  now apply ref_ok_resolves.
 Qed.
 
 (* ---- path parameters are request fields ------------------------------------------------------------ *)
@@ -271,7 +273,7 @@ Qed.
 Lemma key_seg_ok_all : forall e, quantified e -> forall u, In u (map k_def (e_keys e)) -> key_seg_ok u = true.
 Proof.
   intros e Q u Hu. pose proof (fields_wf_all _ _ (q_keys_wf e Q) Hu) as W.
-  unfold ufield_wf in W. apply andb_true_iff in W. destruct W as [W _].
+  destruct (ufield_wf_parts u W) as [W' _]. clear W. rename W' into W.
   unfold name_ok in W. apply andb_true_iff in W. destruct W as [Hi _].
   unfold key_seg_ok. destruct (ident_no_colon_slash _ Hi) as [_ ->].
   destruct (ident_no_colon_slash _ (to_snake_ident _ Hi)) as [_ ->]. reflexivity.
@@ -365,7 +367,30 @@ Qed.
 Lemma of_ufield_facts : forall u,
   f_json (of_ufield u) = uf_name u /\ f_optional (of_ufield u) = uf_optional u
   /\ is_map_field (of_ufield u) = is_map_kind u.
-Proof. intros [n k r o]. unfold of_ufield, is_map_kind, is_map_field. cbn [uf_kind]. destruct k as [pt j|m|m|m|p f t|tn j|i|i]; cbn; repeat split; try reflexivity; destruct i; reflexivity. Qed.
+Proof. intros [n k r o]. unfold of_ufield, is_map_kind, is_map_field. cbn [uf_kind]. destruct k as [pt j|m|m|m|p f t|tn j|i|i|sfs|sfs|os]; cbn; repeat split; try reflexivity; destruct i; reflexivity. Qed.
+
+Lemma of_ufield_no_inline : forall u, is_inline_kind u = false -> f_inline (of_ufield u) = None.
+Proof. intros [n k r o] H. unfold of_ufield, is_inline_kind in *. cbn [uf_kind] in *. destruct k; try reflexivity; discriminate. Qed.
+
+Lemma no_inline_names : forall fs, Forall (fun f => f_inline f = None) fs -> inline_names fs = [] /\ inline_scopes fs = [].
+Proof.
+  induction 1 as [|f l H _ [IH1 IH2]]; [split; reflexivity|]. unfold inline_names, inline_scopes in *. cbn [flat_map].
+  rewrite H, IH1, IH2. split; reflexivity.
+Qed.
+
+Lemma wf_no_inline : forall fs, forallb ufield_wf fs = true -> Forall (fun f => f_inline f = None) (map of_ufield fs).
+Proof.
+  intros fs H. apply Forall_map. apply Forall_forall. intros u Hu. rewrite forallb_forall in H.
+  destruct (ufield_wf_parts u (H u Hu)) as [_ [Hi _]]. now apply of_ufield_no_inline.
+Qed.
+
+(* a message without nested messages and without inline types has one scope *)
+Lemma msg_scopes_no_inline : forall name psm o fs, Forall (fun f => f_inline f = None) fs ->
+  msg_scopes (mkMsg name psm o fs []) = [fields_scope o fs].
+Proof.
+  intros name psm o fs H. unfold msg_scopes. cbn [m_oneof m_fields m_nested map flat_map].
+  destruct (no_inline_names fs H) as [-> ->]. cbn [app]. now rewrite !app_nil_r.
+Qed.
 
 Lemma filter_map_comm : forall {A B} (f : A -> B) (p : B -> bool) (q : A -> bool) l,
   (forall x, p (f x) = q x) -> filter p (map f l) = map f (filter q l).
@@ -419,8 +444,7 @@ Proof.
   intros fs x Hw Hx Hin. apply in_app_or in Hin. destruct Hin as [Hin|Hin]; apply in_map_iff in Hin;
     destruct Hin as [u [<- Hu]]; apply filter_In in Hu; destruct Hu as [Hu _].
   - discriminate.
-  - rewrite forallb_forall in Hw. specialize (Hw u Hu). unfold ufield_wf in Hw. apply andb_true_iff in Hw.
-    destruct Hw as [Hn _]. destruct (map_name_cap_start _ (to_snake_lower_start _ Hn)) as [c [t [E Hc]]].
+  - rewrite forallb_forall in Hw. specialize (Hw u Hu). destruct (ufield_wf_parts u Hw) as [Hn _]. destruct (map_name_cap_start _ (to_snake_lower_start _ Hn)) as [c [t [E Hc]]].
     rewrite E in Hx. cbn in Hx. rewrite (cap_not_low c Hc) in Hx. discriminate.
 Qed.
 
@@ -606,8 +630,9 @@ Qed.
 Lemma user_msg_scopes : forall name psm fs, fields_wf fs = true ->
   all_nodup (msg_scopes (mkMsg name psm false (map of_ufield fs) [])).
 Proof.
-  intros name psm fs H. unfold msg_scopes. cbn [m_oneof m_fields m_nested map]. constructor; [|constructor].
-  rewrite app_nil_r, user_scope. now apply fields_wf_nodup.
+  intros name psm fs H. rewrite msg_scopes_no_inline.
+  2:{ apply wf_no_inline. unfold fields_wf in H. apply andb_true_iff in H. tauto. }
+  constructor; [|constructor]. rewrite user_scope. now apply fields_wf_nodup.
 Qed.
 
 Lemma filter_none : forall {A} (p : A -> bool) l, Forall (fun x => p x = false) l -> filter p l = [].
@@ -671,8 +696,10 @@ Lemma paged_request_scopes : forall e name ks, quantified e -> reserved_free e =
   (forall u, In u ks -> exists k, In k (e_keys e) /\ key_in_path k = true /\ u = k_def k) ->
   all_nodup (msg_scopes (mkMsg name None false (map of_ufield ks ++ [page_request; query_request]) [])).
 Proof.
-  intros e name ks Q Hr Hs Hk. unfold msg_scopes. cbn [m_oneof m_fields m_nested map]. constructor; [|constructor].
-  rewrite app_nil_r, added_scope by (repeat constructor).
+  intros e name ks Q Hr Hs Hk. pose proof (sub_wf _ _ Hs (q_keys_wf e Q)) as Wk.
+  rewrite msg_scopes_no_inline.
+  2:{ apply Forall_app. split; [|repeat constructor]. apply wf_no_inline. unfold fields_wf in Wk. apply andb_true_iff in Wk. tauto. }
+  constructor; [|constructor]. rewrite added_scope by (repeat constructor).
   apply (scope_with_added ks [bs "page"; bs "query"]).
   - exact (sub_wf _ _ Hs (q_keys_wf e Q)).
   - repeat constructor; cbn; intuition discriminate.
@@ -680,11 +707,13 @@ Proof.
 Qed.
 
 Lemma literal_scopes : forall name psm (fs : list ofield) names,
+  forallb (fun f => match f_inline f with None => true | Some _ => false end) fs = true ->
   fields_scope false fs = names -> nodup_bytes names = true ->
   all_nodup (msg_scopes (mkMsg name psm false fs [])).
 Proof.
-  intros name psm fs names E H. unfold msg_scopes. cbn [m_oneof m_fields m_nested map]. constructor; [|constructor].
-  rewrite app_nil_r, E. now apply nodup_bytes_NoDup.
+  intros name psm fs names Hi E H. rewrite msg_scopes_no_inline.
+  - constructor; [|constructor]. rewrite E. now apply nodup_bytes_NoDup.
+  - apply Forall_forall. intros f Hf. rewrite forallb_forall in Hi. specialize (Hi f Hf). destruct (f_inline f); [discriminate|reflexivity].
 Qed.
 
 (* ---- part by part ---------------------------------------------------------------------------------------------- *)
@@ -696,7 +725,7 @@ Proof.
   repeat apply all_nodup_app.
   - unfold keys_msg. rewrite <- (map_map k_def of_ufield). apply user_msg_scopes. exact (q_keys_wf e Q).
   - unfold data_msg. apply user_msg_scopes. exact (q_data_wf e Q).
-  - unfold state_msg. eapply literal_scopes; [vm_compute; reflexivity|reflexivity].
+  - unfold state_msg. eapply literal_scopes; [reflexivity|vm_compute; reflexivity|reflexivity].
   - (* the event oneof: options, the proto oneof "type", the nested event messages *)
     unfold msg_scopes, event_type_msg. cbn [m_oneof m_fields m_nested]. constructor.
     + set (opts := map (fun ev => to_snake (to_lower_camel (ev_name ev))) (e_events e)).
@@ -708,7 +737,10 @@ Proof.
                      (TObject [] (event_type_name e ++ [46] ++ ev_name ev)) false false false false None None) (e_events e)) = []).
         { apply filter_none. apply Forall_map. apply Forall_forall. intros ev _. reflexivity. }
         rewrite En. cbn [map]. rewrite app_nil_r. f_equal. destruct (e_events e); reflexivity. }
-      rewrite E, map_map. cbn [fst].
+      assert (Ein : inline_names (map (fun ev => mkF (to_lower_camel (ev_name ev))
+                     (TObject [] (event_type_name e ++ [46] ++ ev_name ev)) false false false false None None) (e_events e)) = []).
+      { apply no_inline_names. apply Forall_map. apply Forall_forall. intros ev _. reflexivity. }
+      rewrite E, Ein, map_map. cbn [fst app].
       pose proof (q_event_opts e Q) as Ho. apply nodup_bytes_NoDup in Ho. fold opts in Ho.
       destruct (reserved_free_parts e Hr) as [_ [_ [_ [R4 _]]]].
       assert (Hcap : forall ev, In ev (e_events e) -> starts_cap (ev_name ev) = true).
@@ -735,11 +767,17 @@ Proof.
            unfold opts in Hx. apply in_map_iff in Hx. destruct Hx as [ev [E2 Hev]].
            rewrite forallb_forall in R4. specialize (R4 ev Hev). rewrite E2 in R4. discriminate.
         -- apply in_map_iff in Hin. destruct Hin as [ev [E2 Hev]]. exact (Hlow x (or_introl Hx) ev Hev (eq_sym E2)).
-    + apply Forall_map. apply Forall_forall. intros n Hn. apply in_map_iff in Hn. destruct Hn as [ev [<- Hev]].
-      cbn [snd]. rewrite user_scope. apply fields_wf_nodup.
+    + assert (Eis : inline_scopes (map (fun ev => mkF (to_lower_camel (ev_name ev))
+                     (TObject [] (event_type_name e ++ [46] ++ ev_name ev)) false false false false None None) (e_events e)) = []).
+      { apply no_inline_names. apply Forall_map. apply Forall_forall. intros ev _. reflexivity. }
+      rewrite Eis. cbn [app]. apply all_nodup_flat_map. intros n Hn. apply in_map_iff in Hn. destruct Hn as [ev [<- Hev]].
+      cbn [snd].
       pose proof (q_events e Q) as H. rewrite forallb_forall in H. specialize (H ev Hev).
-      apply andb_true_iff in H. destruct H as [H _]. apply andb_true_iff in H. tauto.
-  - unfold event_msg. eapply literal_scopes; [vm_compute; reflexivity|reflexivity].
+      apply andb_true_iff in H. destruct H as [H _]. apply andb_true_iff in H. destruct H as [_ W].
+      assert (Wf : forallb ufield_wf (ev_fields ev) = true) by (unfold fields_wf in W; apply andb_true_iff in W; tauto).
+      destruct (no_inline_names _ (wf_no_inline _ Wf)) as [-> ->].
+      constructor; [|constructor]. rewrite app_nil_r, user_scope. now apply fields_wf_nodup.
+  - unfold event_msg. eapply literal_scopes; [reflexivity|vm_compute; reflexivity|reflexivity].
 Qed.
 
 Lemma inner_service : forall name ann ms,
@@ -763,7 +801,9 @@ Proof.
   repeat apply all_nodup_app.
   - apply user_msg_scopes. exact (sub_wf _ _ (get_keys_sub e) (q_keys_wf e Q)).
   - (* Get response: the entity's own property, and events when eventsInGet *)
-    unfold msg_scopes. cbn [m_oneof m_fields m_nested map]. constructor; [|constructor]. rewrite app_nil_r.
+    rewrite msg_scopes_no_inline.
+    2:{ constructor; [reflexivity|]. destruct (match e_query e with Some q => q_events_in_get q | None => false end); repeat constructor. }
+    constructor; [|constructor].
     destruct (match e_query e with Some q => q_events_in_get q | None => false end) eqn:Eg.
     + unfold fields_scope, entry_names, proto_name. cbn [map filter f_json f_optional mkF array_field is_map_field f_type local_obj app].
       cbn [andb] in R6. constructor; [|repeat constructor; intros []]. intros [Hin|[]].
@@ -773,13 +813,13 @@ Proof.
       repeat constructor. intros [].
   - now apply (paged_request_scopes e _ (list_keys e) Q Hr (list_keys_sub e) (list_keys_path e)).
   - (* List response: the entity's own property and page *)
-    unfold msg_scopes. cbn [m_oneof m_fields m_nested map]. constructor; [|constructor]. rewrite app_nil_r.
+    rewrite msg_scopes_no_inline by (repeat constructor). constructor; [|constructor].
     unfold fields_scope, entry_names, proto_name, page_response, plain_field. cbn [map filter f_json f_optional mkF array_field is_map_field f_type local_obj app].
     constructor; [|repeat constructor; intros []]. intros [Hin|[]].
     change (to_snake (bs "page")) with (bs "page") in Hin. unfold response_name in R5. unfold snake_name in Hin.
     rewrite <- Hin, bytes_eqb_refl in R5. discriminate.
   - now apply (paged_request_scopes e _ (get_keys e) Q Hr (get_keys_sub e) (get_keys_path e)).
-  - eapply literal_scopes; [vm_compute; reflexivity|reflexivity].
+  - eapply literal_scopes; [reflexivity|vm_compute; reflexivity|reflexivity].
   - constructor; [|constructor]. repeat constructor; cbn; intros H;
       repeat (destruct H as [H|H]; [apply app_inv_head in H; discriminate|]); exact H.
 Qed.
@@ -811,7 +851,7 @@ Proof. reflexivity. Qed.
 Lemma inner_publish : forall e, all_nodup (inner_scopes (publish_components e)).
 Proof.
   intros e. unfold publish_components. rewrite inner_topic. apply all_nodup_app.
-  - eapply literal_scopes; [vm_compute; reflexivity|reflexivity].
+  - eapply literal_scopes; [reflexivity|vm_compute; reflexivity|reflexivity].
   - repeat constructor. intros [].
 Qed.
 
@@ -819,9 +859,11 @@ Lemma inner_summary : forall e s, quantified e -> reserved_free e = true -> In s
   all_nodup (inner_scopes (summary_components e s)).
 Proof.
   intros e s Q Hr Hs. unfold summary_components. rewrite inner_topic. apply all_nodup_app.
-  - unfold msg_scopes. cbn [m_oneof m_fields m_nested map]. constructor; [|constructor]. rewrite app_nil_r.
-    pose proof (q_summaries e Q) as H. rewrite forallb_forall in H. specialize (H s Hs).
+  - pose proof (q_summaries e Q) as H. rewrite forallb_forall in H. specialize (H s Hs).
     apply andb_true_iff in H. destruct H as [H _]. apply andb_true_iff in H. destruct H as [_ W].
+    rewrite msg_scopes_no_inline.
+    2:{ constructor; [reflexivity|]. apply wf_no_inline. unfold fields_wf in W. apply andb_true_iff in W. tauto. }
+    constructor; [|constructor].
     destruct (reserved_free_parts e Hr) as [_ [_ [R3 _]]]. rewrite forallb_forall in R3. specialize (R3 s Hs).
     rewrite forallb_forall in R3.
     (* upsert first, then the user's fields *)
@@ -862,7 +904,9 @@ Proof.
   destruct s as [n fs|n fs|n os]; cbn [schema_component inner_scopes flat_map schema_fields] in *; rewrite ?app_nil_r.
   - now apply user_msg_scopes.
   - (* a oneof of the block: options, the proto oneof "type", map entries *)
-    unfold msg_scopes. cbn [m_oneof m_fields m_nested map]. constructor; [|constructor]. rewrite app_nil_r.
+    rewrite msg_scopes_no_inline.
+    2:{ apply wf_no_inline. unfold fields_wf in W. apply andb_true_iff in W. tauto. }
+    constructor; [|constructor].
     destruct (reserved_free_parts e Hr) as [_ [_ [_ [_ [R4 _]]]]]. rewrite forallb_forall in R4. specialize (R4 _ Hs).
     cbn in R4. rewrite forallb_forall in R4.
     pose proof (scope_with_added fs [bs "type"] W) as N.
@@ -989,8 +1033,8 @@ Proof.
     unfold pkg_char, is_low, is_num in H. apply negb_true_iff. apply N.eqb_neq. intros ->. cbn in H. discriminate. }
   assert (Hk : Forall (fun k => ident (uf_name (k_def k)) = true) (e_keys e)).
   { apply Forall_forall. intros k Hk. pose proof (fields_wf_all _ _ (q_keys_wf e Q) (in_map k_def _ _ Hk)) as W.
-    unfold ufield_wf in W. apply andb_true_iff in W. destruct W as [W _].
-    unfold name_ok in W. apply andb_true_iff in W. tauto. }
+    destruct (ufield_wf_parts _ W) as [W' _].
+    unfold name_ok in W'. apply andb_true_iff in W'. tauto. }
   destruct (default_paths e Hb Hi Hp (default_base_clean e Hb Hn (q_pkg e Q)) Hk) as [H0 [H2 _]].
   split; [exact H0|]. split; [exact H2|]. unfold query_base, base_url, snake_name. rewrite Hb.
   rewrite <- !app_assoc. reflexivity.
